@@ -15,6 +15,18 @@ def has_sym(obj):
     return False
 
 
+_DTYPE_GUARDED = {'asarray', 'asanyarray', 'ascontiguousarray', 'asfarray', 'zeros_like', 'empty_like', 'ones_like', 'full_like',
+                  'atleast_1d', 'atleast_2d', 'stack', 'vstack', 'hstack', 'concatenate', 'copy', 'sum', 'mean', 'cumsum', 'dot', 'fromiter'}
+
+
+def _is_dtype_like(x):
+    if isinstance(x, type):
+        return x is not object and (x in (float, int, complex) or issubclass(x, _np.generic))
+    if isinstance(x, _np.dtype):
+        return x != _np.dtype(object)
+    return isinstance(x, str) and x[:1] in 'fdi'
+
+
 class RandomStub:
     """np.random replacement: every draw is a fresh symbolic input constrained only to the
     documented support.  Draws are logged in ctx.log as ('draw', kind, term(s))."""
@@ -112,7 +124,18 @@ class NPProxy:
         self.random = random if random is not None else _np.random
 
     def __getattr__(self, n):
-        return getattr(_np, n)
+        v = getattr(_np, n)
+        if n in _DTYPE_GUARDED:
+            def guarded(*args, **kw):
+                # a float dtype requested for data that holds symbolic scalars: keep dtype=object
+                if has_sym(args):
+                    if 'dtype' in kw and kw['dtype'] is not None and kw['dtype'] is not object:
+                        kw = dict(kw, dtype=object)
+                    elif len(args) >= 2 and _is_dtype_like(args[1]) and n in ('array', 'asarray', 'asanyarray', 'ascontiguousarray', 'asfarray'):
+                        args = (args[0], object) + tuple(args[2:])
+                return v(*args, **kw)
+            return guarded
+        return v
 
     def array(self, obj, dtype=None, **kw):
         if has_sym(obj):
